@@ -315,6 +315,20 @@ func execC10(c Case) (res evid.Result) {
 		return tx.VerifTakeFrames(), nil
 	}
 
+	// a second face of the same forwarder, idle, with room for every packet in one frame
+	tx2 := face.VerifMakeTransport(uri, uri, face.PersistencyPersistent, defn.NonLocal, defn.PointToPoint, 8800)
+	idle := face.MakeNDNLPLinkService(tx2, opts)
+	idle.SetFaceID(301)
+	sendIdle := func(out dispatch.OutPkt) (frames [][]byte, err error) {
+		defer func() {
+			if r := recover(); r != nil {
+				err = fmt.Errorf("panic in sendPacket: %v", r)
+			}
+		}()
+		face.VerifSendPacket(idle, out)
+		return tx2.VerifTakeFrames(), nil
+	}
+
 	if c.LocalCong || c.Warmed {
 		// the link service looks at the transport's send queue only after 64 KiB went out
 		w, _ := lpwire.MakeData("warm", 4000, 1)
@@ -369,6 +383,26 @@ func execC10(c Case) (res evid.Result) {
 		}
 		if !bytes.Equal(pkt.Raw, wire) {
 			return fail("msg %d: sendPacket modified the packet's bytes", i)
+		}
+		if c.LocalCong {
+			// the forwarder hands one packet object to every outgoing face (multicast, several
+			// downstreams): what a congested face adds for its own peer must not show on another, idle
+			// face that sends the same object afterwards
+			frames2, err := sendIdle(out)
+			if err != nil {
+				return fail("msg %d (size %d) on a second, idle face: %v", i, m.Size, err)
+			}
+			for j, f := range frames2 {
+				lp, err := lpwire.ParseFrame(f)
+				if err != nil {
+					return fail("msg %d on a second, idle face: frame %d is not a well-formed LpPacket: %v", i, j, err)
+				}
+				if markStr(lp.CongestionMark) != markStr(m.Cong) {
+					return fail("msg %d: sent through a congested face first and then through an idle one, frame %d of the idle face carries congestion mark %s, the packet has %s",
+						i, j, markStr(lp.CongestionMark), markStr(m.Cong))
+				}
+			}
+			cls["same-packet-through-a-second-idle-face"] = true
 		}
 		msgs[i] = sent{wire: wire, frames: frames}
 
